@@ -39,7 +39,7 @@ def run(patch):
     props=sorted({l.split('property=')[1].split()[0] for l in out.splitlines() if l.startswith('VIOLATION')})
     fails=[l for l in out.splitlines() if l.startswith('FAIL')]
     rules=sorted({l.split()[2] for l in fails if len(l.split())>2})
-    if 'does not apply' in out: props=['PATCH-DOES-NOT-APPLY']
+    if any(l.startswith('patch does not apply') for l in out.splitlines()): props=['PATCH-DOES-NOT-APPLY']
     return props,rules,fails
 seeds=[]
 for d in sorted(glob.glob(f'{V}/seeded/*/'), key=natkey):
